@@ -142,6 +142,11 @@ func (p Precompile) Delegate(
 		if err != nil {
 			return nil, err
 		}
+		// validate the message against the grant (validator allow / deny list) before it is executed:
+		// UpdateStakingAuthorization runs only after the staking module has already applied the message
+		if _, err = stakeAuthz.Accept(ctx, msg); err != nil {
+			return nil, err
+		}
 	}
 
 	// Execute the transaction using the message server
@@ -227,6 +232,11 @@ func (p Precompile) Undelegate(
 		if err != nil {
 			return nil, err
 		}
+		// validate the message against the grant (validator allow / deny list) before it is executed:
+		// UpdateStakingAuthorization runs only after the staking module has already applied the message
+		if _, err = stakeAuthz.Accept(ctx, msg); err != nil {
+			return nil, err
+		}
 	}
 
 	// Execute the transaction using the message server
@@ -309,6 +319,11 @@ func (p Precompile) Redelegate(
 		if err != nil {
 			return nil, err
 		}
+		// validate the message against the grant (validator allow / deny list) before it is executed:
+		// UpdateStakingAuthorization runs only after the staking module has already applied the message
+		if _, err = stakeAuthz.Accept(ctx, msg); err != nil {
+			return nil, err
+		}
 	}
 
 	msgSrv := stakingkeeper.NewMsgServerImpl(&p.stakingKeeper)
@@ -387,6 +402,11 @@ func (p Precompile) CancelUnbondingDelegation(
 		// Check if the authorization grant exists for the caller and the origin
 		stakeAuthz, expiration, err = authorization.CheckAuthzAndAllowanceForGranter(ctx, p.AuthzKeeper, contract.CallerAddress, delegatorHexAddr, &msg.Amount, CancelUnbondingDelegationMsg)
 		if err != nil {
+			return nil, err
+		}
+		// validate the message against the grant (validator allow / deny list) before it is executed:
+		// UpdateStakingAuthorization runs only after the staking module has already applied the message
+		if _, err = stakeAuthz.Accept(ctx, msg); err != nil {
 			return nil, err
 		}
 	}
